@@ -397,4 +397,20 @@ PROPS = {
         "level_note": "Trusted: Lean kernel; allowed axioms; harness+driver; the three external crates are sampled, not modelled.",
         "explanation": "C17.* theorems; ser stream: real parsers/serialisers vs specification-level readers of the same text / JSON.",
     },
+    "C04": {
+        "modules": ["RsddModel.Props.C04"],
+        "streams": [SDD_STREAM],
+        "rule": "as C03; with compression on, every decision node reachable from every result is checked (from its printed canonical form and truth "
+                "tables) for: primes non-false, pairwise exclusive, exhaustive, over the left vtree child's variables; subs over the right child's "
+                "variables and pairwise inequivalent; not trimmable; and the builder's equality classes are compared with equality of the specified functions",
+        "trusted": ["modelled not verified: the two unique tables (C02's table refinement applies to them), HashMap apply cache"],
+        "assumptions": ["vtree leaves are distinct (VTreeManager::new asserts it)", "pointer identity = structural equality"],
+        "level_text": "Kernel-checked: every SDD returned by any operation sequence of the compressing builder is well formed — primes non-false, exclusive, "
+                      "exhaustive, over the left child's variables; subs over the right child's variables, pairwise distinct; not trimmable; sorted and "
+                      "complement-normalised (wfs_of_run, run_wfs) — compressed partitions are unique (partition_unique), well-formed SDDs are "
+                      "canonical (sdd_canon) and therefore two results of one builder are pointer-equal iff they denote the same function (run_canonical); "
+                      "for every vtree with distinct leaves, every lawful cache pair, every fuel.",
+        "level_note": "Trusted: Lean kernel; allowed axioms; harness+driver. Unique tables modelled (their refinement theorem is C02Table).",
+        "explanation": "C04.* theorems; sdd stream: the clauses of well-formedness evaluated on the implementation's results, equality classes vs functions, model == implementation.",
+    },
 }
